@@ -296,7 +296,18 @@ def gen_scenario(rng, n=None, dyadic=None):
         rk = "dyadic"
     else:
         mode = rng.random()
-        if mode < 0.65:
+        if mode < 0.12:
+            # rotations by a SMALL non-zero angle about a generic axis (integer quaternion (N, a, b, c) with N >> |(a,b,c)|:
+            # angle ~ 2|(a,b,c)|/N from 1e-3 down to 1e-8 rad): nothing in the recipe's action may be skipped as "no rotation"
+            N = rng.choice([10**3, 10**4, 10**5, 10**6, 10**7, 3 * 10**8])
+            while True:
+                v3 = tuple(rng.randint(-3, 3) for _ in range(3))
+                if any(v3):
+                    break
+            q = (N,) + v3
+            rot = [[float(v) for v in row] for row in quat_rot_exact(q)]
+            rk = "tinyangle"
+        elif mode < 0.65:
             while True:
                 q = tuple(rng.randint(-7, 7) for _ in range(4))
                 if any(q):
@@ -512,6 +523,23 @@ def oracle_mill(out: Outcome, s, mill, x, E, fld, res):
                 V("oracle:hessian_covariance", err, 0.0, f"{name}: align_hessian(Hess E(x)) != Hess E'(align_coordinates(x)) (mirror={s['mirror']})")
         except Exception as e:  # noqa
             V("oracle:raises", "err " + err_class(e), "array", "align_hessian raised")
+    # --- a recipe DERIVED from this (already used) one by pydantic's copy(update=...) acts as the recipe with the updated fields:
+    #     same answers as a mill built from scratch with those fields
+    try:
+        from qcelemental.models import AlignmentMill
+
+        g0, H0 = E["manybody"]
+        for upd in ({"mirror": not bool(s["mirror"])}, {"rotation": np.asarray(mill.rotation).T.copy()}):
+            d = mill.copy(update=upd)
+            fresh = AlignmentMill(**{**{k: getattr(mill, k) for k in ("shift", "rotation", "atommap", "mirror")}, **upd})
+            for name, f in (("align_gradient", lambda m_: m_.align_gradient(g0)), ("align_hessian", lambda m_: m_.align_hessian(np.ascontiguousarray(H0))),
+                            ("align_coordinates", lambda m_: m_.align_coordinates(x))):
+                ok, err = close(np.asarray(f(d)), np.asarray(f(fresh)))
+                if not ok:
+                    V("oracle:derived_recipe", err, 0.0, f"{name} of mill.copy(update={sorted(upd)}) (taken after the mill was used) differs from a mill built with those fields")
+                    break
+    except Exception as e:  # noqa
+        V("oracle:raises", "err " + err_class(e), "array", "copy(update=...) of a recipe / its methods raised")
     # --- attached vector field and its nuclear derivatives (recipes without mirror only)
     if not s["mirror"]:
         mu, dmu = fld
